@@ -243,11 +243,28 @@ def make_dict(cfg):
     return DictStorage()
 
 
+def make_shelf(cfg):
+    """DictStorage over two shelve files: the persistence set-up the module's documentation names.  A shelf hands out
+    copies: what is changed in a record and not stored back is lost"""
+    import shelve
+    from slimta.queue.dict import DictStorage
+    d = disk_dirs()
+    st = DictStorage(shelve.open(os.path.join(d, 'env', 'db')), shelve.open(os.path.join(d, 'meta', 'db')))
+    st._verif_dir = d
+    return st
+
+
 def maker(name):
-    return {'dict': make_dict, 'gdict': make_dict, 'disk': make_disk, 'redis': make_redis, 'cloud': make_cloud}[name]
+    return {'dict': make_dict, 'gdict': make_dict, 'disk': make_disk, 'redis': make_redis, 'cloud': make_cloud, 'shelf': make_shelf}[name]
 
 
 def cleanup_disk(st):
     d = getattr(st, '_verif_dir', None)
+    for db in (getattr(st, 'env_db', None), getattr(st, 'meta_db', None)):
+        if hasattr(db, 'close') and d:
+            try:
+                db.close()
+            except Exception:  # noqa
+                pass
     if d:
         shutil.rmtree(d, ignore_errors=True)
